@@ -181,8 +181,10 @@ CHECKS = {
         level="exploration",
         rule="two stream sources. (gen) VP8L bitstreams written by /verif's own generator from the lossless specification: any subset and order of the four transforms (each at most once) with tile bits 2-9, palette sizes {1,2,3,4,5,16,17,100,255,256} (all packings), predictor modes 0-13 per tile (rarely 14/15), random cross-colour multipliers; colour cache bits 0-11; optional meta prefix image with prefix bits 2-9 and 1-1100 groups incl. an unreferenced group; prefix codes in simple (1-2 symbols, 1- and 8-bit form, either transmission order) and normal form (complete length-limited codes <=15 from balanced, random and deep trees - deep: padded with never-occurring symbols so that 13-15-bit codewords are used by the occurring symbols -, single-symbol codes, code-length code with 16/17/18 repeat tokens and the max_symbol form); pixel stream of literals, colour-cache hits and backward references with every plane distance code 1-120 and linear distances, lengths up to 4096 incl. overlapping copies (a long-copy class draws lengths uniformly up to 4096); sub-images with their own caches and references. (libwebp) pictures encoded by libwebp 1.2.4's lossless encoder. "
              "Oracle: webp.Decode must accept and return exactly the ARGB that libwebp AND x/image/vp8l return (both must accept and agree; otherwise the case is inconclusive); for libwebp-encoded pictures also the source pixels. "
-             "Non-trivial: stream has a transform, backward reference, cache hit or more than one group; distinct = (transform order with tile bits/palette class, cache bits, meta bits/groups, code style, feature set).",
+             "Non-trivial: stream has a transform, backward reference, cache hit or more than one group; distinct = (transform order with tile bits/palette class, cache bits, meta bits/groups, code style, feature set). "
+             "Every generated stream is also put through /verif's strict VP8L syntax validator (an independent reading of the syntax; disagreements are counted). Thorough adds a native coverage-guided campaign (FuzzC03) over raw VP8L bytes (<=16384 pixels, seeded with 48 generated streams): bytes that the strict validator accepts AND that x/image (consulted first: memory-safe) and then libwebp decode to the same pixels must be accepted by the package with the same pixels; a saved input only counts if it fails again when run alone.",
         assumptions=["libwebp 1.2.4 and golang.org/x/image/vp8l agreeing with each other define the decoded pixels", "streams are 'free mode': what they decode to is defined by the references, not known by construction"],
         tests=[dict(name="TestC03", quick=24000, thorough=200000)],
+        fuzz=[dict(name="FuzzC03", seconds=180)],
     ),
 }
